@@ -4,6 +4,7 @@ CONSTANTS
   MaxT = 4
   MaxC = 2
   Mode = "Handled"
+  QueueOrder = "perproducer"
   Configs <- ThoroughConfigs
 INVARIANT TypeOK
 INVARIANT Positions
